@@ -340,6 +340,8 @@ func gen(t *rapid.T) Case {
 		if rapid.Bool().Draw(t, "retmeta") {
 			c.Returns.Meta = []prog.KV{{K: "X-Recovered", V: "yes"}, {K: "X-Recovered", V: "twice"}}
 		}
+		// the function may hand its coded error over wrapped (errors.As finds it)
+		c.Returns.Wrap = rapid.SampledFrom([]string{"", "", "", "w", "join"}).Draw(t, "retwrap")
 	}
 	return c
 }
